@@ -181,6 +181,9 @@ pub fn find_real(sc: &FindScenario, ctx: &mut Ctx, bins: &Path, sub: &str, cmd_t
     let mut c = Command::new(bins.join("find"));
     c.args(&argv).current_dir(&root).stdin(Stdio::null()).stdout(Stdio::piped()).stderr(Stdio::piped());
     base_env(&mut c, ctx);
+    for (k, v) in &sc.ambient.env {
+        c.env(k, v);
+    }
     let out = c.output().map_err(|e| format!("cannot start {}: {e}", bins.join("find").display()))?;
     let children = parse_child_log(&std::fs::read(&lp).unwrap_or_default());
     Ok(FindReal {
@@ -197,7 +200,7 @@ pub fn find(sc: &FindScenario, ctx: &mut Ctx, bins: &Path, cmd_token: &str) -> X
     if !sc.mutations.is_empty() || sc.now_ns.is_some() || sc.rlimit_stack.is_some() || sc.env.is_some() {
         return Xc::NotComparable;
     }
-    if script_of(&sc.outcomes).is_none() {
+    if script_of(&sc.outcomes).is_none() || sc.ambient.nofile_headroom.is_some() {
         return Xc::NotComparable;
     }
     let root = ctx.scratch.join("A");
